@@ -134,23 +134,39 @@ impl Wut {
             };
         }
         if api == "flow" {
-            let mut req = req;
+            drop(req);
             let te_in_prepare = kind == Kind::Chunked && !explicit_te && variant % 9 == 4;
-            if te_in_prepare && variant % 2 == 0 {
-                // the request object came with a Content-Length; the caller then declares the chunked coding on the flow
-                req.headers_mut().insert("content-length", ureq_proto::http::HeaderValue::from_static("7"));
+            let build = || {
+                let mut req = post_request_v(kind, explicit_te, ver10, variant);
+                if te_in_prepare && variant % 2 == 0 {
+                    // the request object came with a Content-Length; the caller then declares the chunked coding on the flow
+                    req.headers_mut().insert("content-length", ureq_proto::http::HeaderValue::from_static("7"));
+                }
+                let mut f0 = Flow::new(req).unwrap();
+                if let (Kind::Sized(n), 3) = (kind, variant % 7) {
+                    f0.header("content-length", n.to_string()).unwrap();
+                }
+                if te_in_prepare {
+                    f0.header("transfer-encoding", "chunked").unwrap();
+                }
+                if despite {
+                    f0.send_body_despite_method();
+                }
+                f0.proceed()
+            };
+            let mut f = build();
+            if variant % 5 == 3 {
+                // the head goes out through buffers that end exactly at (or one byte behind) its last header line, so that only the
+                // final empty line is left for the next call; then through whatever the caller has
+                let mut twin = build();
+                let n = twin.write(&mut buf).unwrap();
+                let lens = crate::drv_req::lex_head(&buf[..n]).lens;
+                if twin.can_proceed() && lens.len() >= 2 {
+                    let upto: usize = lens[..lens.len() - 1].iter().sum();
+                    let first = upto + (variant / 5) % 2;
+                    let _ = f.write(&mut buf[..first]).unwrap();
+                }
             }
-            let mut f0 = Flow::new(req).unwrap();
-            if let (Kind::Sized(n), 3) = (kind, variant % 7) {
-                f0.header("content-length", n.to_string()).unwrap();
-            }
-            if te_in_prepare {
-                f0.header("transfer-encoding", "chunked").unwrap();
-            }
-            if despite {
-                f0.send_body_despite_method();
-            }
-            let mut f = f0.proceed();
             for _ in 0..400 {
                 if f.can_proceed() {
                     break;
@@ -361,9 +377,27 @@ pub fn ev_max(t: &mut Tracer, w: &mut Wut, kind: Kind, n: usize) -> usize {
             0
         }
         Some(m) => {
-            t.ev(json!({"ev":"mx","n":n,"m":m,"chunked": kind == Kind::Chunked}));
+            t.ev(json!({"ev":"mx","n":n,"m":m,"chunked": kind == Kind::Chunked,"ready": w.ready()}));
             m
         }
+    }
+}
+
+/// The last call on a writer: leave the send-body state (Flow::proceed / Call::into_receive). It must succeed exactly
+/// when the body is reported finished.
+pub fn ev_advance(t: &mut Tracer, w: Wut) {
+    let ready = w.ready();
+    let adv = match w {
+        Wut::Flow(f) => guarded(|| f.proceed().is_some()),
+        Wut::Call(c) => guarded(|| c.into_receive().is_ok()),
+        Wut::Dead => return,
+    };
+    match adv {
+        Some(a) => {
+            t.class(if a { "adv:advanced" } else { "adv:refused" });
+            t.ev(json!({"ev":"adv","ready":ready,"advanced":a}))
+        }
+        None => t.ev(json!({"ev":"panic","during":"leaving the send-body state"})),
     }
 }
 
@@ -406,8 +440,35 @@ pub fn c03(o: &Opts, t: &mut Tracer) {
             for &(i, ol) in &finish_tail {
                 ev_write(t, &mut w, kind, &data[..i], ol, WFlags::default());
             }
+            ev_advance(t, w);
         }
     }
+    // (a2') leaving the send-body state at every point of a body: before any write, after data, after a terminator that did not
+    // fit, after the terminator; and the size-line growth points (16, 256, 4096 bytes of data) with ample and exact room
+    for api in APIS {
+        for (k, stop) in ["nothing", "data", "data+refused-end", "data+end", "end-only", "end-too-small"].iter().enumerate() {
+            for inl in [1usize, 15, 16, 17, 255, 256, 257, 4095, 4096, 4097] {
+                let mut w = start_case(t, api, kind, (k + inl) % 2 == 0, "advance-anywhere");
+                t.sig(format!("adv/{}/{}/{}", api, stop, inl));
+                if stop.starts_with("data") {
+                    let hexd = format!("{:x}", inl).len();
+                    let outl = if k % 2 == 0 { inl + hexd + 4 } else { inl + 64 };
+                    ev_write(t, &mut w, kind, &data[..inl], outl, WFlags::default());
+                }
+                match *stop {
+                    "data+refused-end" | "end-too-small" => {
+                        ev_write(t, &mut w, kind, &[], 4, WFlags::default());
+                    }
+                    "data+end" | "end-only" => {
+                        ev_write(t, &mut w, kind, &[], 5 + inl % 3, WFlags::default());
+                    }
+                    _ => {}
+                }
+                ev_advance(t, w);
+            }
+        }
+    }
+    t.class("w:advance-anywhere");
     // (a3) read-only queries at any point, also after the terminator: they change nothing
     for (k, outl) in [64usize, 5, 6, 11].iter().enumerate() {
         let mut w = start_case(t, "flow", kind, k % 2 == 1, "queries-anywhere");
@@ -441,6 +502,7 @@ pub fn c03(o: &Opts, t: &mut Tracer) {
                     ev_write(t, &mut w, kind, &[], fo, WFlags::default());
                 }
                 ev_write(t, &mut w, kind, &data[..2], 64, WFlags::default());
+                ev_advance(t, w);
             }
         }
     }
@@ -522,6 +584,17 @@ fn c04_schedule(t: &mut Tracer, api: &str, n: u64, rng: &mut StdRng, data: &[u8]
     }
     while steps < 40 {
         steps += 1;
+        if style % 3 == 1 && steps >= 2 + style as usize % 4 {
+            // the caller tries to leave in the middle of the body
+            t.class("w:advance-attempt-mid-body");
+            ev_advance(t, w);
+            return;
+        }
+        if w.has_direct() && rng.gen_bool(0.2) {
+            // the query a caller makes before every write, also with no room at all: read-only
+            let asked = [0usize, 0, 1, 7, 100000][rng.gen_range(0..5)];
+            ev_max(t, &mut w, kind, asked);
+        }
         let l = left.min(70000) as usize;
         let choice = rng.gen_range(0..12);
         match choice {
@@ -581,6 +654,7 @@ fn c04_schedule(t: &mut Tracer, api: &str, n: u64, rng: &mut StdRng, data: &[u8]
         ev_direct(t, &mut w, 0);
     }
     ev_write(t, &mut w, kind, &[], 8, WFlags::default());
+    ev_advance(t, w);
 }
 
 pub fn c04(o: &Opts, t: &mut Tracer) {
